@@ -386,7 +386,7 @@ func init() {
 				}
 				return 20000
 			}, Run: c20Triples},
-			{Name: "random", N: func(c *Ctx) int { return tierN(c, 20000, 2000000) }, Run: c20Random},
+			{Name: "random", N: func(c *Ctx) int { return tierN(c, 20000, 6000000) }, Run: c20Random},
 			{Name: "matrix", Setup: c20Setup, N: func(c *Ctx) int { return tierN(c, 1500, 100000) }, Run: c20Matrix},
 		},
 	})
